@@ -690,21 +690,50 @@ def run_scenario(sc, path):
         raise ValueError(kind)
 
 
-def classify(path):
-    """what a reader observes: (outcome, detail).  outcome in fail / warn / clean"""
+OPEN_SEQUENCE = ["file", "file", "simple", "simple", "file", "simple"]
+
+
+def _open_once(path, kind):
+    """one import in this process: fail / warn / clean"""
     from oqupy.process_tensor import import_process_tensor
     with warnings.catch_warnings(record=True) as w:
         warnings.simplefilter("always")
         try:
-            pt = import_process_tensor(path, "file")
+            pt = import_process_tensor(path, kind)
         except Exception as e:          # noqa: any failure to open counts as "fails"
-            return "fail", type(e).__name__
+            return "fail:" + type(e).__name__
         corrupt = any("corrupt" in str(x.message) for x in w)
-        try:
-            pt._f.close()               # not pt.close(): that is part of what is being checked
-        except Exception:
-            pass
-    return ("warn" if corrupt else "clean"), ""
+        if kind == "file":
+            try:
+                pt._f.close()           # not pt.close(): that is part of what is being checked
+            except Exception:
+                pass
+        del pt
+    return "warn" if corrupt else "clean"
+
+
+def classify(path):
+    """what a reader observes: (outcome, detail).  The file is opened several times in this
+    one process (file, file, simple, simple, file, simple: every ordered pair of import types
+    occurs); the reader's outcome must be a function of the file only, so the overall outcome
+    is the most permissive one seen: clean if ANY open was silent, else warn if any warned.
+    detail lists the individual opens when they are not all alike."""
+    opens = [_open_once(path, kind) for kind in OPEN_SEQUENCE]
+    first = opens[0]
+    kinds = [o.split(":")[0] for o in opens]
+    if "clean" in kinds:
+        outcome = "clean"
+    elif "warn" in kinds:
+        outcome = "warn"
+    else:
+        outcome = "fail"
+    detail = first.split(":", 1)[1] if first.startswith("fail:") else ""
+    # a 'simple' import may additionally fail on unreadable tensors; a silent open after a
+    # warning/failing one is what must not happen
+    if outcome == "clean" and kinds[0] != "clean":
+        detail = "opens in one process: " + ",".join(
+            "%s=%s" % (k, o) for k, o in zip(OPEN_SEQUENCE, kinds))
+    return outcome, detail
 
 
 def content_of(path):
@@ -1081,6 +1110,8 @@ def judge_points(sc, result):
                 else "writing-flag:interrupted-file-opens-without-warning"
             if sc.get("version"):
                 key += ":file-version-" + sc["version"]
+            if (p.get("detail") or "").startswith("opens in one process"):
+                key += ":on-a-repeated-import"
             if key in seen:
                 continue
             seen.add(key)
@@ -1091,7 +1122,7 @@ def judge_points(sc, result):
                         {"scenario": dict(sc, ks=[p["k"]], variants=[p["variant"]]),
                          "killed_after_op": p["k"], "op": p["op"],
                          "variant": p["variant"], "reader": p["outcome"],
-                         "file": (p.get("dump") or "")[:400],
+                         "file": (p.get("dump") or "")[:400], "opens": p.get("detail"),
                          "how": "writer %s after h5py operation %d (%s), before close() was "
                                 "reached on the normal path; import_process_tensor opened the "
                                 "surviving file without error and without the corruption warning"
